@@ -162,6 +162,29 @@ func genScenario(root uint64, idx int) *Scenario {
 			sc.Args = append(sc.Args, "dangling.sh")
 		}
 	}
+	// drawn from a separate stream so that earlier scenarios stay the same
+	r2 := r.Fork("extra-targets")
+	switch r2.Intn(5) {
+	case 0: // the first target has a second hard link (kept outside the formatted set)
+		sc.Targets = append(sc.Targets, Target{Name: prefix + "hardlink-of-f0.txt", Kind: "hardlink", LinkTo: prefix + "f0.sh"})
+	case 1: // a read-only directory entry next to the targets, and a target name with spaces
+		sc.Targets = append(sc.Targets, Target{Name: prefix + "with space.sh", Kind: "regular", Mode: kit.Pick(r2, modes),
+			Content: base64.StdEncoding.EncodeToString(genContent(r2, kit.Pick(r2, []int{20, 3000}), false))})
+		if !useDir {
+			sc.Args = append(sc.Args, "with space.sh")
+		}
+	case 2: // a file that does not parse: shfmt reports it and must still handle the others atomically
+		sc.Targets = append(sc.Targets, Target{Name: prefix + "broken.sh", Kind: "regular", Mode: 0o644,
+			Content: base64.StdEncoding.EncodeToString([]byte("if true; then\necho   unterminated\n"))})
+		if !useDir {
+			// before or after the good files
+			if r2.Chance(1, 2) {
+				sc.Args = append([]string{"broken.sh"}, sc.Args...)
+			} else {
+				sc.Args = append(sc.Args, "broken.sh")
+			}
+		}
+	}
 	if useDir {
 		sc.Args = []string{"proj"}
 	}
@@ -232,6 +255,13 @@ func (w *world) materialise(sc *Scenario) error {
 			}
 		case "fifo":
 			if err := syscall.Mkfifo(p, 0o644); err != nil {
+				return err
+			}
+		}
+	}
+	for _, t := range sc.Targets {
+		if t.Kind == "hardlink" {
+			if err := os.Link(filepath.Join(w.work, t.LinkTo), filepath.Join(w.work, t.Name)); err != nil {
 				return err
 			}
 		}
